@@ -16,8 +16,8 @@ from simdbus.sched import Scheduler
 
 PROPERTY = 'C16'
 LEVEL = 'exploration'
-QUICK_RUNS = 6000
-QUICK_BUDGET_S = 90
+QUICK_RUNS = 12000
+QUICK_BUDGET_S = 60
 THOROUGH_BUDGET_S = 600
 RULE = ('export/unexport histories (2-15 steps) over 8 paths including /, /a, /a/b, /a/bc, '
         '/a/b/c, with Introspect / GetManagedObjects / ordinary calls sent to exported, '
